@@ -8,6 +8,7 @@ Engine E1.  Two exhaustive axes (DESIGN 3.2):
                     reserved-tag templates (Def, Def-expand, Onset/Offset/Inset, Duration/Delay, Event-context).
 Oracle: expected verdicts come from mc.schema_model / the specification table below, never from hed.
 """
+import itertools
 import os
 
 from mc import core, schema_model, hedgen
@@ -62,6 +63,7 @@ EXPECTED = {
     "undeclared-def": {"DEF_INVALID"},
     "def-missing-value": {"DEF_INVALID"},
     "def-extra-value": {"DEF_INVALID"},
+    "def-expand-extra-value": {"DEF_EXPAND_INVALID"},
     "def-bad-value": {"DEF_INVALID", "VALUE_INVALID"},
     "def-expand-altered": {"DEF_EXPAND_INVALID"},
     "def-expand-ungrouped": {"DEF_EXPAND_INVALID", "TAG_GROUP_ERROR"},
@@ -363,6 +365,7 @@ def template_cases(st):
             add("valid:def", ctxfmt.format("Def/Ne"))
             add("undeclared-def", ctxfmt.format("Def/Nope"))
             add("def-extra-value", ctxfmt.format("Def/Pl/3"))
+            add("def-expand-extra-value", ctxfmt.format(f"(Def-expand/Pl/3, {st.def_content['Pl']})"))
             add("valid:def-expand", ctxfmt.format(f"(Def-expand/Pl, {st.def_content['Pl']})"))
             add("valid:def-expand", ctxfmt.format(f"(Def-expand/Ne, {st.def_content['Ne']})"))
             add("def-expand-altered", ctxfmt.format(f"(Def-expand/Pl, ({s1}, {s3}))"))
@@ -491,6 +494,47 @@ def sweep_verdicts():
     return out
 
 
+def prefix_history_check(ctx):
+    """One schema object is used, then given a namespace prefix, then used again: the rules that go by tag name (unique,
+    required, reserved tags) follow the prefix."""
+    from hed.schema import load_schema
+    from hed.models.hed_string import HedString
+    from hed.validator import HedValidator
+    rec = ctx.rec
+    path = os.path.join(core.SCHEMA_DATA, "HED8.3.0.xml")
+    cases = [("({0}Event-context, ({0}Red)), ({0}Event-context, ({0}Blue))", "TAG_NOT_UNIQUE"),
+             ("{0}Red, ({0}Event-context, ({0}Blue))", None),
+             ("({0}Blue, ({0}Event-context, ({0}Red)))", "TAG_GROUP_ERROR"),
+             ("({0}Duration/3 s, ({0}Red)), {0}Blue", None)]
+    for hist in itertools.product(("use", "prefix:sc", "prefix:tl", "prefix:"), repeat=3):
+        rec.n("evaluations")
+        rec.n("transitions", 3)
+        rec.n("distinct_nontrivial")
+        try:
+            S = load_schema(path)
+            ns = ""
+            for op in hist + ("use",):
+                if op == "use":
+                    v = HedValidator(S)
+                    for tmpl, want in cases:
+                        text = tmpl.format(ns)
+                        codes = {i["code"] for i in v.validate(HedString(text, S), allow_placeholders=False)
+                                 if i["severity"] == ERR}
+                        if (want is None and codes) or (want is not None and want not in codes):
+                            rec.violation("C01:prefix-history:verdict-differs-after-prefix-change:" + (want or "valid"),
+                                          history=list(hist), text=text, codes=sorted(codes), expected=want)
+                            raise StopIteration
+                else:
+                    S.set_schema_prefix(op[7:])
+                    ns = op[7:] + ":" if op[7:] else ""
+        except StopIteration:
+            pass
+        except Exception as e:
+            rec.violation("C01:prefix-history:raises:" + type(e).__name__, history=list(hist), error=repr(e)[:200])
+        rec.state(("prefix-history", hist))
+    rec.outcome("prefix-history")
+
+
 def hash_seed_check(ctx):
     """The verdict on an annotation must not depend on the interpreter's string-hash seed (set iteration order)."""
     seeds = list(range(1, ctx.pick(9, 25)))
@@ -552,6 +596,7 @@ def run(ctx):
     ctx.rec.notes["defs_available"] = {s.label: s.defs_ok for s in setups}
     ctx.parallel(worker, setups, bounds, ctx.seed)
     hash_seed_check(ctx)
+    prefix_history_check(ctx)
     ctx.rec.counts["states"] = len(ctx.rec.states)
 
 
